@@ -97,10 +97,10 @@ where
 {
     writeln!(writer, "#[derive(Debug, Default, YaSerialize, YaDeserialize)]")?;
     if let Some(tns) = &target_namespace {
-        let namespaces = format!("\"{}\" = \"{}\"", tns.abbreviation, tns.namespace);
+        let namespaces = format!("{:?} = {:?}", tns.abbreviation, tns.namespace);
         writeln!(
             writer,
-            "#[yaserde(prefix = \"{}\", namespaces = {{{}}}, rename = \"{}\")]",
+            "#[yaserde(prefix = {:?}, namespaces = {{{}}}, rename = {:?})]",
             tns.abbreviation, namespaces, xml_name
         )?;
     }
@@ -148,13 +148,13 @@ where
     writeln!(writer, "#[derive(Debug, Default, YaSerialize, YaDeserialize)]")?;
     if let Some(tns) = &target_namespace {
         // declare the struct's own namespace and every other namespace its members belong to
-        let mut namespaces = vec![format!("\"{}\" = \"{}\"", tns.abbreviation, tns.namespace)];
+        let mut namespaces = vec![format!("{:?} = {:?}", tns.abbreviation, tns.namespace)];
         for ns in fields
             .iter()
             .filter(|f| !f.is_attribute)
             .filter_map(|f| f.target_namespace.as_ref())
         {
-            let declaration = format!("\"{}\" = \"{}\"", ns.abbreviation, ns.namespace);
+            let declaration = format!("{:?} = {:?}", ns.abbreviation, ns.namespace);
             if !namespaces.contains(&declaration) {
                 namespaces.push(declaration);
             }
@@ -162,7 +162,7 @@ where
         let namespaces = namespaces.join(", ");
         writeln!(
             writer,
-            "#[yaserde(prefix = \"{}\", namespaces = {{{}}}, rename = \"{}\")]",
+            "#[yaserde(prefix = {:?}, namespaces = {{{}}}, rename = {:?})]",
             tns.abbreviation, namespaces, xml_name
         )?;
     }
